@@ -624,7 +624,7 @@ def show(v):
             out += ["%s: " % key] + inner
         return out + ["\n}"]
     if k == "fn":
-        return [AnyText()]
+        return ["<closure>" if v.get("lit") else "<function>"]
     raise ValueError("cannot show %r" % k)
 
 
